@@ -589,6 +589,13 @@ func racePass(r *ev.Run) {
 		r.Broken("race pass did not run: %v: %s", err, tail)
 	}
 	if err != nil && !strings.Contains(txt, "WARNING: DATA RACE") && !strings.Contains(txt, "INVARIANT ") {
+		if r.Violations() > 0 {
+			// the exhaustive part has already established violations on this
+			// tree; the free-running pass tripping over the same broken pool
+			// must not turn the verdict into "broken check"
+			r.Cap(fmt.Sprintf("race pass did not complete (%v); not evaluated because the exhaustive part already reports violations: %s", err, strings.TrimSpace(tail)))
+			return
+		}
 		r.Broken("race pass failed: %v: %s", err, tail)
 	}
 	r.Set("race_pass", map[string]interface{}{"bursts": iters, "race_reports": races, "sites": sites, "output_tail": strings.TrimSpace(tail)})
